@@ -64,6 +64,9 @@ def check(chk: Check) -> None:
                             'constructed from immutable scalars', floor=1)
     R6 = chk.rule('C17.R6', 'no tree mutation after the parser returned (parse-time appends happen in grammar actions only)',
                   floor=1)
+    R7 = chk.rule('C17.R7', 'no tree field holds a one-shot iterator: a grammar action never stores zip / map / filter / reversed / '
+                            'enumerate / iter / itertools.* objects or generator expressions in a node (the first evaluation would '
+                            'exhaust them: a cached tree evaluates differently the second time)', floor=40)
     chk.decided += ['cache key, store discipline, hit/miss returns (R1-R3)', 'immutability of trees under evaluation (R4)',
                     'no aliasing of results with tree parts (R5)', 'tree frozen once cached (R6)']
     chk.assumptions += ['the host-supplied mapping implements MutableMapping consistently (in / [] / []=)']
@@ -223,6 +226,37 @@ def check(chk: Check) -> None:
                     '; '.join(sorted({m[2] for m in mine})) or '%d path(s)' % n)
     chk.require(not r3_problems and miss_sigs, R3, q + ' :: miss body', where,
                 '; '.join(sorted(set(r3_problems))) or 'one parsing body, entered iff the cache is None or lacks the key')
+
+    # --------------------------------------------------------------------- R7
+    ITER_BUILTINS = {'zip', 'map', 'filter', 'reversed', 'enumerate', 'iter'}
+
+    def one_shot(t):
+        t = freeze(t)
+        if not isinstance(t, tuple) or not t:
+            return None
+        if t[0] == 'call' and isinstance(t[2], tuple) and t[2][:2] == ('ref', 'builtin') and t[2][2] in ITER_BUILTINS:
+            return '%s(...)' % t[2][2]
+        if t[0] == 'call' and isinstance(t[2], tuple) and t[2][:2] == ('ref', 'ext') and t[2][2].startswith('itertools.'):
+            return t[2][2]
+        if t[0] == 'comp' and t[1] == 'gen':
+            return 'a generator expression'
+        if t[0] == 'call' and isinstance(t[2], tuple) and t[2][:1] == ('attr',) and t[2][2] in ('items', 'keys', 'values') and False:
+            return None
+        return None
+    for t in C.templates(F).all():
+        if t.raises is not None:
+            continue
+        found = []
+        terms = [t.result] + [freeze(e.value) for e in t.events if e.kind in ('store_attr', 'store_sub')] + \
+                [a for e in t.events if e.kind == 'call' for a in freeze(e.args)]
+        for term in terms:
+            for c, flds in A.new_nodes(term):
+                for fn_, fv in flds:
+                    w = one_shot(fv)
+                    if w:
+                        found.append('%s.%s = %s' % (c.rsplit('.', 1)[-1], fn_, w))
+        chk.require(not found, R7, 'template %s' % t.key, '%s:%d' % (C.grammar(F).module.rel, t.prod.line),
+                    '; '.join(sorted(set(found))) + ': consumed by the first evaluation' if found else 'node fields hold lists / nodes / scalars')
 
     # --------------------------------------------------------------------- R6
     r6 = []
